@@ -163,20 +163,20 @@ def enum_grid(tier):
         cpus = list(range(1, 17))
     for n in sizes:
         for c in cpus:
-            mode = ["default", "hamming", "double"][(n + c) % 3]
+            mode = ["default", "hamming", "double", "tenths"][(n + c) % 4]
             yield {"n": n, "salt": (3 * n + c) % 16, "n_cpu": c, "k": 1 + (n + c) % 2, "mode": mode}
             # the same pool of sequences under compressions that share a histogram dimension (5/6 -> 4 bins, 7/8/9 -> 3, ...)
             yield {"n": n, "salt": (3 * n + c) % 16, "n_cpu": 1 + (c > 4), "k": 1 + (n % 3 == 0), "mode": mode,
                    "compression": [5, 6, 7, 8, 9, 10, 13, 19][(n + c) % 8]}
             if tier == "thorough":
-                mode2 = ["default", "hamming", "double"][(n + c + 1) % 3]
+                mode2 = ["default", "hamming", "double", "tenths"][(n + c + 1) % 4]
                 yield {"n": n, "salt": (n + 5 * c) % 16, "n_cpu": c, "k": 2, "mode": mode2, "compression": 1 + (n * c) % 7}
 
 
 @st.composite
 def random_case(draw, tier="quick"):
     alpha = draw(st.sampled_from(["AC", "ACD", "AWY", G.AA, G.AA]))
-    mode = draw(st.sampled_from(["default", "default", "hamming", "double", "lenpen", "blocks"]))
+    mode = draw(st.sampled_from(["default", "default", "hamming", "double", "lenpen", "blocks", "tenths", "tenths"]))   # tenths: values not exact in float32
     seqs = draw(G.clonal_family(alpha=alpha, max_size=40, founder_len=(2, 9), max_edits=3,
                                 allow_empty=True))
     if draw(st.integers(0, 3)) == 0:
